@@ -47,7 +47,14 @@ _KINDS = None
 
 
 def gen(ctx):
+    import hashlib
+    from gen import c09_src
+    from lib import common
     ctx.gen_info["sources"] = src_hashes(["myst_parser/mdit_to_docutils/transforms.py", "myst_parser/mdit_to_docutils/base.py"])
+    # Gen/AnchorsSrc.v: ResolveAnchorIds.apply translated statement by statement from the source
+    text = c09_src.generate(common.REPO)
+    common.write_if_changed(common.COQ / "Gen" / "AnchorsSrc.v", text)
+    ctx.gen_info["Gen/AnchorsSrc.v"] = hashlib.sha256(text.encode()).hexdigest()[:16]
 
 
 # ------------------------------------------------------------------ observing the real transform
